@@ -123,6 +123,10 @@ def open_state(cls_name: str, state: Dict[str, bytes], root: str, want_view: boo
             out = {"st": "open", "pids": [str(m.patch_uuid) for m in meta],
                    "hashes": [None if m.hdf5_hashsum is None else str(m.hdf5_hashsum) for m in meta],
                    "view": None}
+            # what the newest user block links to: extension section and (MF class) the manifest
+            mfo = getattr(rec, "_manifest", None)
+            out["meta"] = {"exts": json.loads(json.dumps(meta[-1].ub_exts, default=str, sort_keys=True)),
+                           "manifest": None if mfo is None else json.loads(mfo.json())}
             if want_view:
                 try:
                     out["view"] = ih5lib.dump_view(rec)
@@ -172,9 +176,20 @@ def newest_abs(state: Dict[str, bytes]) -> Dict[str, Any]:
 
 # ---------------------------------------------------------------------------- the oracle
 
+def _link_problem(cls_name: str, meta: Dict[str, Any], want: Optional[Dict[str, Any]]) -> Optional[str]:
+    """The committed state includes what the newest user block links to: ub_exts (manifest uuid and
+    hashsum, stub flag) and, for the manifest-aware class, the manifest with its manifest_exts."""
+    if cls_name == "IH5MFRecord":
+        if reclib.EXT_NAME not in meta["exts"] or meta["manifest"] is None:
+            return "the newest user block carries no manifest link / no manifest is loaded"
+    if want is not None and meta != want:
+        return "ub_exts / manifest differ from those of the committed state"
+    return None
+
+
 def oracle(cls_name: str, state: Dict[str, bytes], committed: List[Dict[str, Any]],
            next_view: Optional[List[Any]], root: str, check_alone: bool,
-           clean_payload: bool) -> Dict[str, Any]:
+           clean_payload: bool, next_meta: Optional[Dict[str, Any]] = None) -> Dict[str, Any]:
     """The property on one crash state, with the real code only.
 
     committed: per committed container {"name", "sha", "mf_name", "mf_sha", "pid"} in order, and
@@ -242,12 +257,20 @@ def oracle(cls_name: str, state: Dict[str, bytes], committed: List[Dict[str, Any
         if r["view"] != last_view:
             return {"ok": False, "why": "opens cleanly as the committed containers but shows another state "
                     f"({r.get('view_exc')})", "class": "committed", "n": len(pids)}
+        lp = _link_problem(cls_name, r["meta"], committed[-1].get("meta"))
+        if lp:
+            return {"ok": False, "why": "opens cleanly as the committed containers but " + lp,
+                    "class": "committed", "n": len(pids)}
         return res
     if len(pids) == nc + 1:
         res["class"] = "committed-next"
         if next_view is not None and r["view"] != next_view:
             return {"ok": False, "why": "opens cleanly with the new container marked committed but does not show the state "
                     f"that commit wrote ({r.get('view_exc')})", "class": "committed-next", "n": len(pids)}
+        lp = _link_problem(cls_name, r["meta"], next_meta)
+        if lp:
+            return {"ok": False, "why": "opens cleanly with the new container marked committed, a state that was never "
+                    "committed: " + lp, "class": "committed-next", "n": len(pids)}
         return res
     return {"ok": False, "why": f"opens cleanly with {len(pids)} containers, {nc} committed", "class": "?", "n": len(pids)}
 
@@ -286,12 +309,205 @@ def _apply(rec, op):
         pass
 
 
-def _committed_entry(state: Dict[str, bytes], name: str, view) -> Dict[str, Any]:
+def _committed_entry(state: Dict[str, bytes], name: str, view, meta=None) -> Dict[str, Any]:
     p = reclib.parse_ublock(state[name][:UB])
     mfn = name + reclib.MF_SUFFIX
-    return {"name": name, "sha": sha(state[name]), "pid": p["ub"]["pid"] if p["st"] == "ok" else None,
-            "mf_name": mfn if mfn in state else None, "mf_sha": sha(state[mfn]) if mfn in state else None,
-            "view": view}
+    e = {"name": name, "sha": sha(state[name]), "pid": p["ub"]["pid"] if p["st"] == "ok" else None,
+         "mf_name": mfn if mfn in state else None, "mf_sha": sha(state[mfn]) if mfn in state else None,
+         "view": view}
+    if meta is not None:
+        e["meta"] = meta
+    return e
+
+
+class _SpyFile:
+    """File object that reports every write() (offset, bytes) with the directory before and after."""
+
+    def __init__(self, f, spy, name):
+        self._f, self._spy, self._name = f, spy, name
+
+    def __enter__(self):
+        return self
+
+    def __exit__(self, *a):
+        self._f.close()
+
+    def __getattr__(self, k):
+        return getattr(self._f, k)
+
+    def __iter__(self):
+        return iter(self._f)
+
+    def write(self, data):
+        self._f.flush()
+        off = self._f.tell()
+        before = self._spy.snap()
+        n = self._f.write(data)
+        self._f.flush()
+        b = data if isinstance(data, (bytes, bytearray, memoryview)) else str(data).encode("utf-8")
+        self._spy.add("write", self._name, before, data=bytes(b), offset=off, handle=id(self))
+        return n
+
+
+class Interceptor:
+    """While active, every file-level write below `work` made from Python code is recorded with a
+    snapshot of the directory before and after it: open() for writing (creation / truncation) and
+    each write() through it, os.unlink / remove / rename / replace (hence the pathlib methods),
+    h5py.File.close / flush of a writable container, and the entry/exit of IH5UserBlock.save and
+    IH5Manifest.save (markers).  Nothing in /repo is changed; the patches are undone on exit."""
+
+    def __init__(self, work: Path, api: str):
+        self.work, self.api = Path(work), api
+        self.prefix = str(Path(work).resolve()) + os.sep
+        self.events: List[Dict[str, Any]] = []
+        self._undo: List[Any] = []
+
+    def snap(self):
+        opener = self._orig_open
+        return {p.name: opener(p, "rb").read() for p in sorted(self.work.iterdir()) if p.is_file()}
+
+    def mine(self, path) -> Optional[str]:
+        try:
+            ap = os.path.abspath(os.fspath(path))
+        except TypeError:
+            return None
+        if isinstance(ap, bytes):
+            ap = ap.decode()
+        return os.path.basename(ap) if (ap + os.sep).startswith(self.prefix) or ap.startswith(self.prefix) else None
+
+    def add(self, kind, name, before, **kw):
+        self.events.append(dict(kind=kind, name=name, before=before, after=self.snap(), api=self.api, **kw))
+
+    def _patch(self, obj, attr, new):
+        self._undo.append((obj, attr, getattr(obj, attr)))
+        setattr(obj, attr, new)
+
+    def __enter__(self):
+        import builtins
+        import io
+        import h5py
+        from metador_core.ih5.manifest import IH5Manifest
+        from metador_core.ih5.record import IH5UserBlock
+        spy = self
+        self._orig_open = orig_open = builtins.open
+
+        def spy_open(file, mode="r", *a, **kw):
+            name = spy.mine(file) if not isinstance(file, int) else None
+            writing = any(c in mode for c in "wax+")
+            if name is None or not writing:
+                return orig_open(file, mode, *a, **kw)
+            before = spy.snap()
+            f = orig_open(file, mode, *a, **kw)
+            if any(c in mode for c in "wx"):
+                spy.add("open-" + ("w" if "w" in mode else "x"), name, before)
+            return _SpyFile(f, spy, name)
+
+        self._patch(builtins, "open", spy_open)
+        self._patch(io, "open", spy_open)
+
+        def wrap_os(fn_name):
+            orig = getattr(os, fn_name)
+
+            def w(*a, **kw):
+                names = [spy.mine(x) for x in a[:2] if isinstance(x, (str, bytes, os.PathLike))]
+                names = [n for n in names if n]
+                if not names:
+                    return orig(*a, **kw)
+                before = spy.snap()
+                r = orig(*a, **kw)
+                spy.add("os." + fn_name, "->".join(names), before)
+                return r
+            spy._patch(os, fn_name, w)
+
+        for fn in ("unlink", "remove", "rename", "replace", "truncate"):
+            wrap_os(fn)
+
+        def wrap_h5(meth):
+            orig = getattr(h5py.File, meth)
+
+            def w(fobj, *a, **kw):
+                name = None
+                try:
+                    if fobj.id.valid and fobj.mode == "r+":
+                        name = spy.mine(fobj.filename)
+                except Exception:  # noqa: BLE001
+                    name = None
+                if name is None:
+                    return orig(fobj, *a, **kw)
+                before = spy.snap()
+                r = orig(fobj, *a, **kw)
+                spy.add("h5" + meth, name, before)
+                return r
+            spy._patch(h5py.File, meth, w)
+
+        wrap_h5("close")
+        wrap_h5("flush")
+
+        def wrap_save(klass, tag):
+            orig = klass.save
+
+            def w(obj, filename, *a, **kw):
+                spy.events.append({"kind": tag + "-enter", "name": os.path.basename(str(filename)), "api": spy.api})
+                r = orig(obj, filename, *a, **kw)
+                spy.events.append({"kind": tag + "-exit", "name": os.path.basename(str(filename)), "api": spy.api})
+                return r
+            spy._patch(klass, "save", w)
+
+        wrap_save(IH5UserBlock, "ubsave")
+        wrap_save(IH5Manifest, "mfsave")
+        return self
+
+    def __exit__(self, *a):
+        for obj, attr, old in reversed(self._undo):
+            setattr(obj, attr, old)
+        self._undo = []
+        return False
+
+
+def write_signature(events: List[Dict[str, Any]], newest: str) -> List[str]:
+    """The sequence of file-level writes of one API call, names relative to the newest container:
+    consecutive write()s through one handle are one item."""
+    sig: List[str] = []
+    last_handle = None
+    for e in events:
+        k = e["kind"]
+        if k.endswith("-enter") or k.endswith("-exit"):
+            continue
+        nm = e["name"]
+        role = "new" if nm == newest else ("new.mf" if nm == newest + reclib.MF_SUFFIX else nm)
+        if k == "write":
+            if e.get("handle") == last_handle:
+                continue
+            last_handle = e.get("handle")
+            sig.append(f"write:{role}")
+        else:
+            last_handle = None
+            sig.append(f"{k}:{role}")
+    return sig
+
+
+def intercepted_states(events: List[Dict[str, Any]], newest: str) -> List[Dict[str, Any]]:
+    """Crash points inside an API call: the directory before and after every intercepted write, and
+    every prefix of every write() into the user block of a container (bytes on disk at that moment
+    vs bytes being written)."""
+    out: List[Dict[str, Any]] = []
+    closed = False
+    for i, e in enumerate(events):
+        if "before" not in e:
+            continue
+        tag = f"{e['api']}#{i}:{e['kind']}:{e['name']}"
+        out.append({"label": f"in:{tag}:before", "state": e["before"], "clean": closed})
+        if e["kind"] == "write" and e["name"].endswith(".ih5") and e["offset"] < UB:
+            data, off = e["data"], e["offset"]
+            old = e["before"][e["name"]]
+            for k in range(1, len(data)):
+                st = dict(e["before"])
+                st[e["name"]] = old[:off] + data[:k] + old[off + k:]
+                out.append({"label": f"in:{tag}:torn{k}", "state": st, "clean": closed, "torn": True})
+        if e["kind"] == "h5close" and e["name"] == newest:
+            closed = True
+        out.append({"label": f"in:{tag}:after", "state": e["after"], "clean": closed})
+    return out
 
 
 def record_history(cls_name: str, rounds: List[List[Any]], work: Path) -> Dict[str, Any]:
@@ -302,20 +518,27 @@ def record_history(cls_name: str, rounds: List[List[Any]], work: Path) -> Dict[s
     for p in work.iterdir():
         p.unlink()
     out: List[Dict[str, Any]] = []
-    rec = cls(work / REC, "w")
+    with Interceptor(work, "create") as spy0:
+        rec = cls(work / REC, "w")
     try:
         for i, ops in enumerate(rounds):
             rd: Dict[str, Any] = {"ops": ops}
             if i > 0:
                 rd["before"] = snapshot(work)
-                rec.create_patch()
+                with Interceptor(work, "create") as spy:
+                    rec.create_patch()
+                rd["ev_create"] = spy.events
+            else:
+                rd["ev_create"] = spy0.events
             rd["created"] = snapshot(work)
             rd["writes"] = []
             for op in ops:
                 _apply(rec, op)
                 rd["writes"].append(snapshot(work))
             with vlib.time_limit(60):
-                rec.commit_patch()
+                with Interceptor(work, "commit") as spy:
+                    rec.commit_patch()
+            rd["ev_commit"] = spy.events
             rd["after"] = snapshot(work)
             with vlib.time_limit(60):
                 rd["view"] = ih5lib.dump_view(rec)
